@@ -116,6 +116,17 @@ def gen_cases(ctx):
         if nthread is not None:
             case['nthread'] = nthread
         cases.append(case)
+    # blsc columns spanning MANY frames (compression blocks of a few kB, awkward sizes: the frame length keys fall anywhere
+    # relative to the file layer's read blocks), read back through the real de-framing reader
+    # (tiny blocks give thousands of frames per column: their length keys land on every residue of the read-block size)
+    for block in (6041, 4099, 2053, 12288, 16, 24, 40):
+        files = []
+        for i in range(2):
+            rows = rng.choice([2500, 3001, 1777])
+            cols = [['pos', '<f4', [rows, 3], bytes(rng.randrange(256) for _ in range(rows * 12)).hex()],
+                    ['pid', '<i8', [rows], bytes(rng.randrange(256) for _ in range(rows * 8)).hex()]]
+            files.append({'compression': 'blsc', 'blsc_block': block, 'cols': cols})
+        cases.append({'kind': 'valid', 'files': files, 'fields': ['pos', 'pid'], 'isatty': False, 'via': 'call', 'multiframe': True})
     # fixed corner cases
     one = {'compression': None, 'cols': [['pos', '<f4', [2, 3], bytes(range(24)).hex()], ['pid', '<i8', [2], bytes(range(16)).hex()]]}
     cases.append({'kind': 'tty', 'files': [one], 'fields': ['pos'], 'isatty': True, 'via': 'call'})
@@ -152,7 +163,10 @@ def _write_files(tmp, case):
             orig = BloscCompressor.compress
             BloscCompressor.compress = lambda self, data, _o=orig, **kw: _o(self, memoryview(data), **kw)
             try:
-                af.write_to(path, all_array_compression='blsc')
+                if f.get('blsc_block'):
+                    af.write_to(path, all_array_compression='blsc', compression_kwargs={'compression_block_size': f['blsc_block']})
+                else:
+                    af.write_to(path, all_array_compression='blsc')
             finally:
                 BloscCompressor.compress = orig
         else:
@@ -407,7 +421,7 @@ def explore(ctx):
     dist = {'kind': {}, 'nfiles': {}, 'nfields': {}, 'ndim': {}, 'width': {}, 'empty_columns': 0, 'blsc_files': 0,
             'via': {}, 'outcome': {}, 'outside_oracle_domain': 0}
     nontrivial = set()
-    terms = []
+    terms, term_owner, term_owner_all = [], [], []
     for case, got in zip(cases, impl):
         dist['kind'][case['kind']] = dist['kind'].get(case['kind'], 0) + 1
         dist['nfiles'][str(len(case['files']))] = dist['nfiles'].get(str(len(case['files'])), 0) + 1
@@ -427,7 +441,7 @@ def explore(ctx):
         if exp is None:
             dist['outside_oracle_domain'] += 1
         elif exp['class'] == 'ok' and (len(case['files']) >= 2 or len(case['fields']) >= 2):
-            nontrivial.add(case_term(case))
+            nontrivial.add(case_term(case) if not case.get('multiframe') else repr(sorted(f['blsc_block'] for f in case['files'])))
         if why:
             counterexamples.append({
                 'key': key_of(case, why[0]), 'what': f"pipe_asdf ({case['kind']}, {case['via']}): {why[1]}",
@@ -435,7 +449,10 @@ def explore(ctx):
                 'predicate': 'bytes on the pipe == for each requested field in order: int64 total element count, int32 item width, '
                              'concatenation over files in argument order of the raw array bytes; missing file/field -> error with '
                              'no byte written', 'size': size_of(case)})
-        terms.append(coqio.tup([case_term(case), impl_val(got)]))
+        if not case.get('multiframe'):       # tens of kB per column: judged by the oracle only
+            terms.append(coqio.tup([case_term(case), impl_val(got)]))
+            term_owner.append(len(term_owner_all))
+        term_owner_all.append(case)
     counterexamples.sort(key=lambda v: v['size'])
     seen, keep = set(), []
     for v in counterexamples:
@@ -465,6 +482,7 @@ def explore(ctx):
         if err:
             mismatches.append({'error': err})
         for b in bad[:4]:
+            b = term_owner[b]
             mv = coq.eval_terms(ctx.scratch, f'c20m{b}', IMPORTS, [f'run {case_term(cases[b])}'])[0]
             mismatches.append({'input': cases[b], 'impl': impl[b], 'model': mv[:2000]})
         validated = len(terms)
@@ -486,7 +504,7 @@ def explore(ctx):
 def search(ctx, broken):
     if not ctx.model_available:
         return []
-    cases = gen_cases(ctx)
+    cases = [c for c in gen_cases(ctx) if not c.get('multiframe')]
     bad, err = coq.eval_mismatches(ctx.scratch, 'c20s', IMPORTS, 'holds', [case_term(c) for c in cases], chunk=60, func='failing')
     if err:
         ctx.notes.append('search: ' + err)
